@@ -7,6 +7,7 @@ Every random choice derives from the `random.Random` handed in, so a case replay
   overlap   paths revisiting stops / overlapping each other (optimizeJourney cases)
   tmpl      directed rewrite templates (go-too-far corridor, return line, continuation, walk)
   zero      zero-duration hops (outside the optimality domains; termination / validity only)
+  twoends   FAR / NEAR candidate stops at both ends served by different runs (scan breaks, best access / egress selection)
   ties      consecutive stops of a trip served in the same second: only the sequence number orders two connections (sort comparators)
   hours     vehicles and requests on, just before and just after hour marks, 0:00 .. 32:00
   xfer      some lines of the special `transferable` mode
@@ -39,7 +40,18 @@ def gen_network(rng, profile):
         a, b = rng.randrange(ns), rng.randrange(ns)
         if a != b and (a, b) not in seen:
             seen.add((a, b)); foot.append((a, b, rng.choice([30, 60, 120, 300, 1500]) if rng.random() < .9 else rng.randint(1, 400), rng.randint(0, 400)))
-    if rng.random() < 0.5:
+    # a hub: one stop with 3-4 incoming footpaths of mixed length in NO particular order, a long one listed before shorter ones
+    # (the footpath tables are not sorted by time; loops that skip a too-long entry must keep their position bookkeeping right)
+    hub_done = False
+    if ns >= 4 and rng.random() < 0.35:
+        hub = rng.randrange(ns)
+        srcs = [x for x in range(ns) if x != hub and (x, hub) not in seen]
+        rng.shuffle(srcs)
+        times = [rng.choice([900, 1500, 700])] + [rng.choice([30, 60, 100, 200, 300]) for _ in range(3)]
+        for x, t in zip(srcs[:4], times):
+            seen.add((x, hub)); foot.append((x, hub, t, rng.randint(0, 400)))
+        hub_done = True
+    if rng.random() < 0.5 and not hub_done:
         rng.shuffle(foot)
     nag = rng.randint(1, 3); nsv = rng.randint(1, 3)
     nl = rng.randint(2, 5) if dense else rng.randint(1, 5)
@@ -49,6 +61,12 @@ def gen_network(rng, profile):
         if xfer and rng.random() < 0.4:
             mode = 2
         lines.append((rng.randrange(nag), mode))
+    if xfer:
+        # a transfer between a regular and a `transferable` line needs both kinds: make sure both exist
+        if len(lines) < 2: lines.append((rng.randrange(nag), 0)); nl = len(lines)
+        ks = rng.sample(range(len(lines)), 2)
+        lines[ks[0]] = (lines[ks[0]][0], 2)
+        if lines[ks[1]][1] == 2: lines[ks[1]] = (lines[ks[1]][0], rng.choice([0, 1]))
     paths, trips = [], []
     ids = list(range(1, 80)); rng.shuffle(ids)
     base_hour = rng.choice([0, 1, 5, 9, 13, 23, 24, 30]) if hours else 0
@@ -83,9 +101,10 @@ def gen_network(rng, profile):
     if rng.random() < 0.5:
         rng.shuffle(trips)
     acc, egr = {}, {}
-    for _ in range(rng.randint(1, 3)):
+    # several candidate stops with different walks at both ends more often than not (selection rules, break conditions)
+    for _ in range(rng.choice([1, 2, 2, 3, 3])):
         acc[rng.randrange(ns)] = (rng.choice([0, 30, 100, 240, 1300]), rng.randint(0, 300))
-    for _ in range(rng.randint(1, 3)):
+    for _ in range(rng.choice([1, 2, 2, 3, 3])):
         egr[rng.randrange(ns)] = (rng.choice([0, 30, 100, 240, 1300]), rng.randint(0, 300))
     scen = [dict(services=list(range(nsv)), onlyLines=[], exceptLines=[], onlyAgencies=[], exceptAgencies=[], onlyModes=[], exceptModes=[])]
     for _ in range(rng.randint(0, 3)):
@@ -192,6 +211,19 @@ def gen_parallel(rng):
         for _ in range(rng.randint(1, 3)):
             arr, dep, cb, cu = _mk_trip(rng, stops, 3000 + 60 * rng.randint(0, 40), flags=0.03)
             trips.append((len(paths) - 1, 0, ids.pop(), arr, dep, cb, cu))
+    # a two-leg way whose first leg rides the line with the HIGHER index (boarding order != order of the line identifiers): the
+    # alternatives search finds it under several exclusion combinations and must recognise it as one and the same alternative
+    if rng.random() < 0.6 and ns >= 3:
+        m = rng.randrange(1, ns - 1)
+        lx, ly = len(lines), len(lines) + 1
+        lines.append((0, 0)); lines.append((0, 0))
+        paths.append((lx, [m, d_], [rng.randint(1, 50)])); px = len(paths) - 1
+        paths.append((ly, [o, m], [rng.randint(1, 50)])); py = len(paths) - 1
+        for r in range(rng.randint(1, 2)):
+            t = 3000 + 60 * rng.randint(0, 30)
+            h1 = rng.choice([120, 300]); w = rng.choice([180, 240, 600]); h2 = rng.choice([120, 300])
+            trips.append((py, 0, ids.pop(), [t, t + h1], [t, t + h1], [1, 1], [1, 1]))
+            trips.append((px, 0, ids.pop(), [t + h1 + w, t + h1 + w + h2], [t + h1 + w, t + h1 + w + h2], [1, 1], [1, 1]))
     scen = [dict(services=[0], onlyLines=[], exceptLines=[], onlyAgencies=[], exceptAgencies=[], onlyModes=[], exceptModes=[])]
     return dict(ns=ns, nag=1, nsv=1, foot=foot, lines=lines, paths=paths, trips=trips, scenarios=scen,
                 acc=[(o, rng.choice([0, 60]), 3)] + ([(1, 120, 9)] if rng.random() < .3 else []),
@@ -284,7 +316,43 @@ def gen_ties(rng):
                 cacheall=rng.choice([0, 1]), profile="ties", t_hint=(t0, t0 + 3 * 3600))
 
 
+def gen_twoends(rng):
+    """two candidate stops with clearly different walks at the origin (FAR / NEAR) and at the destination, served by different
+    runs: the run met first by a scan is not the best one once the walks are counted (break conditions of both scans, best
+    access / egress selection); both time types"""
+    FAR, NEAR, M, EN, EF = 0, 1, 2, 3, 4
+    ns = 5 + rng.randint(0, 1)
+    foot = [(s, s, 0, 0) for s in range(ns)]
+    if rng.random() < 0.3: foot.append((M, EN, rng.choice([60, 120]), 80))
+    wfar = rng.choice([600, 900, 1200]); wnear = rng.choice([0, 60, 120])
+    gfar = rng.choice([600, 900, 1200]); gnear = rng.choice([0, 60, 120])
+    lines = [(0, 0), (0, 0), (0, 0)]; paths = []; trips = []
+    ids = list(range(1, 60)); rng.shuffle(ids)
+    t0 = rng.choice([7200, 10800, 36000])
+    # origin side: the run from FAR leaves later and arrives later than the run from NEAR
+    dn = t0 + rng.choice([0, 300, 600]); an = dn + rng.choice([300, 600])
+    df = an + rng.choice([60, 300, 600]) - rng.choice([0, 300]); af = df + rng.choice([300, 600])
+    paths.append((0, [NEAR, M], [10])); trips.append((0, 0, ids.pop(), [dn, an], [dn, an], [1, 1], [1, 1]))
+    paths.append((1, [FAR, M], [10])); trips.append((1, 0, ids.pop(), [df, af], [df, af], [1, 1], [1, 1]))
+    # destination side: two runs from M, to EN (arrives later, short walk) and to EF (arrives earlier, long walk)
+    base = max(an, af) + rng.choice([180, 300, 900])
+    for r in range(rng.randint(1, 2)):
+        d1 = base + r * 1800
+        a_ef = d1 + rng.choice([300, 600]); a_en = a_ef + rng.choice([60, 300, 900])
+        paths.append((2, [M, EF], [10])); trips.append((len(paths) - 1, 0, ids.pop(), [d1, a_ef], [d1, a_ef], [1, 1], [1, 1]))
+        d2 = d1 + rng.choice([0, 120, 600])
+        paths.append((2, [M, EN], [10])); trips.append((len(paths) - 1, 0, ids.pop(), [d2, max(a_en, d2 + 60)], [d2, max(a_en, d2 + 60)], [1, 1], [1, 1]))
+    if rng.random() < 0.5: rng.shuffle(trips)
+    scen = [dict(services=[0], onlyLines=[], exceptLines=[], onlyAgencies=[], exceptAgencies=[], onlyModes=[], exceptModes=[])]
+    hi = max(x for t in trips for x in t[3])
+    return dict(ns=ns, nag=1, nsv=1, foot=foot, lines=lines, paths=paths, trips=trips, scenarios=scen,
+                acc=[(FAR, wfar, 700), (NEAR, wnear, 50)], egr=[(EN, gnear, 40), (EF, gfar, 800)],
+                cacheall=rng.choice([0, 1]), profile="twoends", t_hint=(t0 - 1500, hi + 1500))
+
+
 def gen_dataset(rng, stream):
+    if stream == "twoends":
+        return gen_twoends(rng)
     if stream == "ties":
         return gen_ties(rng)
     if stream == "tmpl":
@@ -314,6 +382,12 @@ def gen_query(rng, d, forward=None, cap=None, alt=False, limits=True):
     elif prof == "closer":
         lo, hi = d["t_hint"]
         t = rng.choice([lo - 600, lo - 60, hi, hi + 3000])
+    elif prof == "twoends":
+        lo, hi = d["t_hint"]
+        t = rng.choice([lo, lo + 600, lo + 1200, lo + 1500, hi - 1500, hi - 900, hi, hi + 600])
+        if forward is None: forward = rng.random() < 0.5
+        if (not forward) and t < (lo + hi) // 2: t = rng.choice([hi - 1500, hi - 600, hi])
+        if forward and t > (lo + hi) // 2: t = rng.choice([lo, lo + 600, lo + 1200])
     elif prof == "ties":
         lo, hi = d["t_hint"]
         t = rng.choice([lo - 600, lo - 60, lo + 1800, lo + 3000, lo + 5400, hi, hi + 600])
@@ -334,7 +408,7 @@ def gen_query(rng, d, forward=None, cap=None, alt=False, limits=True):
         q["max_first_waiting_time"] = cap
     if limits:
         if rng.random() < 0.3: q["max_travel_time"] = rng.choice([0, 600, 1800, 3600])
-        if rng.random() < 0.3: q["max_transfer_travel_time"] = rng.choice([-5, 30, 60, 300])
+        if rng.random() < 0.35: q["max_transfer_travel_time"] = rng.choice([-5, 30, 60, 300, 400, 600, 1000])
         if rng.random() < 0.2: q["max_access_travel_time"] = rng.choice([0, 30, 100, 2000])
         if rng.random() < 0.2: q["max_egress_travel_time"] = rng.choice([0, 30, 100, 2000])
         if rng.random() < 0.05: q["min_waiting_time"] = rng.choice([32767, 32768, 65535, -3])
